@@ -9,12 +9,23 @@ real run : the REAL transports (SocketStreamTransport with / without sendmsg, SS
            every send path of the asyncio adapter (send_all, send_all_from_iterable, AsyncStreamEndpoint.send_packet,
            AsyncTCPNetworkClient.send_packet) on a loopback TCP connection after the peer's RST / FIN / half-close or
            our own aclose(): a send that can transmit nothing must raise, never return (vlib/c04_aiofault.py).
+           Every buffer is handed over as one of 12 KINDS (vlib/c04_bufs.py: bytes, bytearray, views of bytes / bytearray /
+           array("H"|"I"|"Q") — items wider than a byte —, shaped casts — two dimensions —, slices with an offset, read-only):
+           the chunks of send_packet / send_all_from_iterable, and the whole data given to send_all() (case["allkind"]); the
+           bytes that must arrive are memoryview(x).tobytes().  The send loops of the transport ABCs themselves run under
+           user-defined transports with a scripted send() (kind "bufs": partial write at every offset of every kind).
+           Multi-call HISTORIES on one asyncio adapter / endpoint / client object (kind "aiohist", vlib/c04_hist.py): sends that
+           park in the write flow control and are ended by cancellation / backend.timeout / move_on_after, the peer reading
+           between the calls (all / part / nothing), then later sends small and big — protocol level (real adapter + protocol
+           over the fake transport of vlib/c20_drive), real socketpair, loopback TCP (AsyncTCPNetworkClient).
 model run: the same chunk list and scripts through the Lean model (Model/Retry.lean, Model/Send.lean) via endriver.
 oracle   : bytes read by the peer are a prefix of the concatenation of the chunks (== it when the call returned),
            the call ended by itself (return / TimeoutError / connection error — never by using up the environment
            script), number of socket calls <= |data| + waits + 2, waits within the time budget; with a finite retry_interval
            every select() wait is <= retry_interval whatever the timeout (also None): a would-block condition the descriptor
            never signals (selector event `never`) is re-tried, the call never sleeps without a bound (`exhausted hang`).
+           Histories: once the peer has read everything and the socket is writable every send has ended (a parked send = it never
+           returns); the wire is, in order, all the bytes of every completed send and a prefix of every interrupted one.
 """
 from __future__ import annotations
 
@@ -59,15 +70,33 @@ ASSUMPTIONS = [
 ]
 RULE = (
     "case = transport (sendmsg | no sendmsg | TLS) x SC_IOV_MAX x entry point (send_packet | send_all_from_iterable | send_all) x chunk list "
-    "(empty chunks in any position, bytes/bytearray/memoryview/multi-byte memoryview) x timeout x retry_interval x socket script x selector script "
+    "(empty chunks in any position) x kind of buffer (bytes, bytearray, views of bytes/bytearray/array H,I,Q, 2-D casts, offset slices, read-only; "
+    "also for the single buffer given to send_all) x timeout x retry_interval x socket script x selector script "
     "(ready / expired / never-ready descriptor; no time budget x finite retry_interval over-sampled); "
     "non-trivial = a partial write, a would-block, an error or an empty chunk occurred; distinct by full case digest; "
     "plus oracle-only cases on real sockets / OpenSSL / asyncio, among them every send path of the asyncio adapter x fault "
-    "(peer RST, FIN, half-close, own aclose, none) x noticed by the event loop before the send or not x sends in a row"
+    "(peer RST, FIN, half-close, own aclose, none) x noticed by the event loop before the send or not x sends in a row; "
+    "user-defined transports (blocking ABC with scripted send(), zero-copy override, async ABC) x entry point x kind of buffer x a partial "
+    "write at every offset; histories on one asyncio adapter / endpoint / client: 2-8 sends x ended by cancel / timeout / move_on_after "
+    "while parked or not x peer reads all / part / nothing in between x later sends small / big x protocol level / socketpair / loopback TCP"
 )
 
-REAL_KINDS = ("realsock", "openssl", "atls", "aio", "aiofault")   # oracle-only cases on real sockets / OpenSSL / asyncio
-#            (vlib/c04_async.py; "aiofault" = asyncio adapter send paths after RST / FIN / aclose: vlib/c04_aiofault.py)
+REAL_KINDS = ("realsock", "openssl", "atls", "aio", "aiofault", "bufs", "aiohist")   # oracle-only cases (no model run)
+#            (vlib/c04_async.py; "aiofault" = asyncio adapter send paths after RST / FIN / aclose: vlib/c04_aiofault.py;
+#             "bufs" = the send loops of the transport ABCs under every kind of buffer: vlib/c04_bufs.py;
+#             "aiohist" = multi-call HISTORIES on one asyncio adapter / endpoint / client object: vlib/c04_hist.py)
+_SUB = {"aiofault": "c04_aiofault", "bufs": "c04_bufs", "aiohist": "c04_hist"}
+
+
+def _sub(case: dict):
+    """module that owns an oracle-only case kind with its own run_real / oracle / nontrivial / shrink / known_key"""
+    name = _SUB.get(case.get("kind"))
+    if name is None:
+        return None
+    import importlib
+
+    return importlib.import_module("vlib." + name)
+
 _FIX: bool | None = None
 
 
@@ -88,14 +117,11 @@ def code_is_fixed() -> bool:
 # ----------------------------------------------------------------------------------------------------------------
 
 def _mk_chunk(h: str, kind: str):
-    b = bytes.fromhex(h) if h != "-" else b""
-    if kind == "ba":
-        return bytearray(b)
-    if kind == "mv":
-        return memoryview(b)
-    if kind == "mvH" and len(b) % 2 == 0:
-        return memoryview(array.array("H", b))
-    return b
+    """the chunk as a buffer of the given kind (vlib/c04_bufs.mk_buffer: bytes, bytearray, views of bytes / bytearray / array("H"|"I"|"Q"),
+    shaped casts, slices); a kind that does not fit the length falls back to bytes"""
+    from vlib import c04_bufs
+
+    return c04_bufs.mk_buffer(bytes.fromhex(h) if h != "-" else b"", kind)
 
 
 def _serializer():
@@ -149,10 +175,9 @@ def make_transport(tr: str, ri: float, w: env.World, a: socket.socket):
 
 
 def run_real(case: dict) -> list[str]:
-    if case.get("kind") == "aiofault":
-        from vlib import c04_aiofault
-
-        return c04_aiofault.run_real(case)
+    sub = _sub(case)
+    if sub is not None:
+        return sub.run_real(case)
     if case.get("kind") in REAL_KINDS:
         from vlib import c04_async
 
@@ -178,7 +203,9 @@ def run_real(case: dict) -> list[str]:
                 elif case["entry"] == "iterable":
                     transport.send_all_from_iterable(iter(chunks), math.inf if tmo is None else float(tmo))
                 else:
-                    transport.send_all(b"".join(chunks), math.inf if tmo is None else float(tmo))
+                    # the whole data as ONE buffer of kind `allkind` (send_all is typed bytes | bytearray | memoryview)
+                    whole = _mk_chunk(core.hexs(_data(case)), case.get("allkind", "b"))
+                    transport.send_all(whole, math.inf if tmo is None else float(tmo))
             except KeyboardInterrupt:
                 raise
             except BaseException as e:  # noqa: BLE001 — every way of ending is an observable
@@ -233,10 +260,9 @@ def _get(real: list[str], prefix: str) -> str | None:
 
 
 def oracle(case: dict, real: list[str]) -> str | None:
-    if case.get("kind") == "aiofault":
-        from vlib import c04_aiofault
-
-        return c04_aiofault.oracle(case, real)
+    sub = _sub(case)
+    if sub is not None:
+        return sub.oracle(case, real)
     if case.get("kind") in REAL_KINDS:
         from vlib import c04_async
 
@@ -322,12 +348,13 @@ def oracle(case: dict, real: list[str]) -> str | None:
 
 
 def nontrivial(case: dict, real: list[str]) -> str | None:
-    if case.get("kind") == "aiofault":
-        from vlib import c04_aiofault
-
-        return c04_aiofault.nontrivial(case, real)
+    sub = _sub(case)
+    if sub is not None:
+        return sub.nontrivial(case, real)
     if case.get("kind") in REAL_KINDS:
-        return case["kind"]
+        from vlib import c04_async
+
+        return c04_async.nontrivial(case, real)
     calls = [ln for ln in real if ln.startswith("call ")]
     consumed = case["sock"][:len(calls)]
     data = _data(case)
@@ -346,15 +373,20 @@ def nontrivial(case: dict, real: list[str]) -> str | None:
 
 
 def shrink(case: dict):
-    if case.get("kind") == "aiofault":
-        from vlib import c04_aiofault
-
-        yield from c04_aiofault.shrink(case)
+    sub = _sub(case)
+    if sub is not None:
+        yield from sub.shrink(case)
         return
     if case.get("kind") in REAL_KINDS:
         n = len(case["chunks"])
         for i in range(n if n > 1 else 0):   # never down to "no chunk at all": that is a different failure
             yield {**case, "chunks": case["chunks"][:i] + case["chunks"][i + 1:], "kinds": case["kinds"][:i] + case["kinds"][i + 1:]}
+        if any(k != "b" for k in case["kinds"]):
+            for i, k in enumerate(case["kinds"]):
+                if k != "b":
+                    yield {**case, "kinds": case["kinds"][:i] + ["b"] + case["kinds"][i + 1:]}
+        if case.get("allkind", "b") != "b" and case.get("entry") == "all":
+            yield {**case, "allkind": "b"}
         return
     n = len(case["chunks"])
     for i in range(n):
@@ -365,6 +397,8 @@ def shrink(case: dict):
                    "kinds": case["kinds"][:i] + ["b"] + case["kinds"][i + 1:]}
     if any(k != "b" for k in case["kinds"]):
         yield {**case, "kinds": ["b"] * n}
+    if case.get("allkind", "b") != "b":
+        yield {**case, "allkind": "b"}
     sock = case["sock"]
     for i in range(len(sock)):
         if sock[i][0] != "sent" or sock[i][1] < 1000:
@@ -387,10 +421,9 @@ def shrink(case: dict):
 
 
 def known_key(case: dict, real: list[str], why: str) -> str:
-    if case.get("kind") == "aiofault":
-        from vlib import c04_aiofault
-
-        return c04_aiofault.known_key(case, real, why)
+    sub = _sub(case)
+    if sub is not None:
+        return sub.known_key(case, real, why)
     if case.get("kind") in REAL_KINDS:
         if case["kind"] == "aio" and "close hang" in real and "-" in case["chunks"]:
             return "path=asyncio-adapter,empty-buffer-left-in-transport,spin"
@@ -420,11 +453,34 @@ def _pad(data_len: int) -> list:
     return [["sent", 100000, 0] for _ in range(data_len + 4)]
 
 
-def _case(tr, entry, chunks, sock, sel, timeout=None, ri=None, iov=1024, kinds=None) -> dict:
+def _case(tr, entry, chunks, sock, sel, timeout=None, ri=None, iov=1024, kinds=None, allkind="b") -> dict:
     n = sum(len(c) for c in chunks)
     return {"tr": tr, "iov": iov, "entry": entry, "chunks": [core.hexs(c) for c in chunks],
-            "kinds": kinds or ["b"] * len(chunks), "timeout": timeout, "ri": ri,
+            "kinds": kinds or ["b"] * len(chunks), "allkind": allkind, "timeout": timeout, "ri": ri,
             "sock": [list(e) for e in sock] + _pad(n), "sel": [list(e) for e in sel]}
+
+
+def _bufkind_corpus() -> list[dict]:
+    """every kind of buffer x every transport x every entry point, the FIRST write partial at every offset (then 1-byte and
+    complete writes, a would-block in between): `send_all(data)` gets the whole data as one buffer of that kind, the iterable /
+    the serializer yields a header, the buffer and empty buffers of that kind"""
+    from vlib import c04_bufs
+
+    cs = []
+    data = bytes(range(0x41, 0x51))     # 16 bytes: fits array("H" | "I" | "Q") and the shaped casts
+    for tr in ("sendmsg", "join", "tls"):
+        blk = "eagain" if tr != "tls" else "wantw"
+        for kind in c04_bufs.BUF_KINDS:
+            if kind == "b":
+                continue
+            for k in range(1, 16):
+                cs.append(_case(tr, "all", [data], [("sent", k, 0), ("sent", 1, 0), (blk, 0, 0), ("sent", 3, 0)], [("ready", 0)],
+                                timeout=None, ri=None, allkind=kind))
+                if k % 2 or kind in c04_bufs.WIDE_KINDS:
+                    cs.append(_case(tr, "iterable" if k % 4 else "packet", [b"hd", data, b"", b"t"],
+                                    [("sent", 2 + k, 0), ("sent", 1, 0), (blk, 0, 0), ("sent", 5, 0)], [("ready", 0)],
+                                    timeout=9, ri=2, kinds=["b", kind, kind, "mv"], iov=1024 if k % 3 else 2))
+    return cs
 
 
 def corpus() -> list[dict]:
@@ -473,6 +529,13 @@ def corpus() -> list[dict]:
     cs.append(_case("sendmsg", "iterable", [b"", b"", b"", b"xy", b""], [("sent", 1, 0)], [], iov=3, timeout=2))
     cs.append(_case("sendmsg", "iterable", [b"ab", b"cd"], [], [], iov=0))
     cs.append(_case("sendmsg", "iterable", [b"ab", b"cdef"], [("sent", 3, 0)], [], kinds=["mv", "mvH"]))
+    # kinds of buffer (itemsize != 1, two dimensions, offsets): a partial write at every offset
+    cs.extend(_bufkind_corpus())
+    from vlib import c04_bufs, c04_async, c04_hist
+
+    cs.extend(c04_bufs.corpus())
+    cs.extend(c04_async.corpus())
+    cs.extend(c04_hist.corpus())
     return cs
 
 
@@ -511,7 +574,7 @@ def gen_chunks(rng):
     if style < 0.08:
         lens = [0] * rng.randint(0, 3)
     else:
-        lens = [rng.choice([0, 0, 1, 1, 2, 3, 4, 6]) for _ in range(rng.randint(1, 6))]
+        lens = [rng.choice([0, 0, 1, 1, 2, 3, 4, 6, 8]) for _ in range(rng.randint(1, 6))]
         if rng.random() < 0.3:
             lens.append(0)
         if rng.random() < 0.15:
@@ -520,10 +583,12 @@ def gen_chunks(rng):
     for ln in lens:
         chunks.append(bytes((nxt + i) % 251 + 1 for i in range(ln)))
         nxt += ln
+    from vlib import c04_bufs
+
     kinds = []
     for c in chunks:
-        k = rng.choice(["b", "b", "b", "ba", "mv", "mvH"])
-        kinds.append(k if (k != "mvH" or (len(c) % 2 == 0 and len(c) > 0)) else "b")
+        k = rng.choice(("b", "b", "b", "b") + c04_bufs.BUF_KINDS)
+        kinds.append(k if c04_bufs.fits(k, len(c)) else rng.choice(["b", "ba", "mv", "mvsl"]))
     return chunks, kinds
 
 
@@ -531,6 +596,8 @@ def generate(rng, tier: str, boost: int):
     n = (7000 if tier == "quick" else 80000) * boost
     if boost > 1:
         n = min(n, 100000)  # escalated failing-input search: keep it well under a minute
+    from vlib import c04_bufs
+
     for _ in range(n):
         tr = rng.choice(["sendmsg", "sendmsg", "join", "tls"])
         chunks, kinds = gen_chunks(rng)
@@ -542,14 +609,34 @@ def generate(rng, tier: str, boost: int):
         iov = rng.choice([1024, 1024, 1, 2, 3, -1, 0]) if tr == "sendmsg" else 1024
         entry = rng.choice(["packet", "iterable", "iterable", "all"])
         sock, sel = gen_scripts(rng, tr, total, timeout, ri)
-        yield _case(tr, entry, chunks, sock, sel, timeout, ri, iov, kinds)
-    from vlib import c04_async, c04_aiofault
+        allkind = "b"
+        if entry == "all":
+            allkind = rng.choice([k for k in c04_bufs.BUF_KINDS if c04_bufs.fits(k, total)])
+        yield _case(tr, entry, chunks, sock, sel, timeout, ri, iov, kinds, allkind)
+    from vlib import c04_async, c04_aiofault, c04_hist
 
+    yield from c04_bufs.generate(rng, tier, boost)
     yield from c04_async.generate(rng, tier, boost)
     yield from c04_aiofault.generate(rng, tier, boost)
+    yield from c04_hist.generate(rng, tier, boost)
 
 
 def extra_coverage(stats) -> dict:
     return {"code_variant": "adjust_leftover_buffer drops exhausted empty views (C04-fix-1 applied)" if code_is_fixed()
             else "unpatched adjust_leftover_buffer (model run with fix=0; the theorems are about fix=1)",
-            "oracle_only": "real OpenSSL (sync and async TLS) and asyncio adapter cases are judged by the oracle only"}
+            "oracle_only": "real OpenSSL (sync and async TLS), asyncio adapter, user-defined transport (bufs) and history (aiohist) "
+                           "cases are judged by the oracle only",
+            "buffer_kinds": list(_bufkinds()),
+            "buffer_kinds_not_drawn (refused by the interpreter itself before a byte moves)": _rejected()}
+
+
+def _bufkinds():
+    from vlib import c04_bufs
+
+    return c04_bufs.BUF_KINDS
+
+
+def _rejected():
+    from vlib import c04_bufs
+
+    return c04_bufs.rejected_kinds()
